@@ -16,4 +16,5 @@ var checks = map[string]checkDef{
 	"C16": {Harness: "c16", Instrument: true},
 	"C14": {Harness: "c14"},
 	"C17": {Harness: "c17"},
+	"C18": {Harness: "c18", Instrument: true},
 }
